@@ -6,3 +6,4 @@ import SkoolVerif.Props.C09
 import SkoolVerif.Proofs.SimFrame
 import SkoolVerif.Proofs.SimWf
 import SkoolVerif.Props.C18
+import SkoolVerif.Props.C16
